@@ -69,9 +69,7 @@ def plan(tier):
     if tier == "thorough":
         add("e-only-k4", K=4, firmware=0, kinds="rd")
         add("firmware-k4-all", K=4, firmware=1, kinds="r")
-        add("e-only-k5", K=5, firmware=0, kinds="r")
         add("e-only-k6-core", K=6, firmware=0, kinds="r", roles="RET,REC,PRINT,TRAVEL")
-        add("firmware-k5", K=5, firmware=1, kinds="r", roles="FRET,FREC,FRET1,FREC1,PRINT,TRAVEL")
     return out
 
 
